@@ -41,8 +41,12 @@ func (n *Node) UnmarshalXML(d *xml.Decoder, start xml.StartElement) error {
 		node.XMLName = se.Name
 		// Assign	"node.Attrs = se.Attr", without repeating xmlns in attributes:
 		for _, attr := range se.Attr {
-			// Do not repeat xmlns, it is already in XMLName
-			if attr.Name.Local != "xmlns" {
+			// Do not repeat xmlns, it is already in XMLName. Prefix declarations (xmlns:p) are
+			// not attributes either: the names that use the prefix are already resolved, and
+			// the encoder declares the prefixes it needs by itself. Kept as attributes they
+			// were written back as xmlns:_xmlns="xmlns" _xmlns:p="..." and grew on every
+			// round trip.
+			if attr.Name.Local != "xmlns" && attr.Name.Space != "xmlns" {
 				node.Attrs = append(node.Attrs, attr)
 			}
 		}
